@@ -9,6 +9,8 @@ and the expected set of offending paths are known from the construction.
 """
 import errno
 import json
+import itertools
+import io
 import os
 import random
 import sys
@@ -264,16 +266,18 @@ def run_case(case, kinds, rng, checks):
             if C.path_covered(case['ignores'], d) or not os.path.isdir(os.path.join(root, d)):
                 continue
             exp_sub = {p for p in expected if p == d or p.startswith(d + '/')}
-            seen = []
-            try:
-                m = ManifestRecursiveLoader(top)
-                r = m.assert_directory_verifies(d, fail_handler=lambda e: (seen.append(e.path), False)[1])
-                ok = sorted(seen) == sorted(exp_sub) and bool(r) == (not exp_sub)
-            except BaseException as e:
-                ok, r = False, type(e).__name__
-            if not ok:
-                out.append(dict(desc, what='C01/C07 sub-path %r: calls %r result %r expected %r' % (d, sorted(seen), r, sorted(exp_sub)),
-                                key='subpath', props=['C01', 'C07']))
+            # the same directory spelled with and without a trailing slash (path_starts_with accepts both)
+            for spelled in (d, d + '/'):
+                seen = []
+                try:
+                    m = ManifestRecursiveLoader(top)
+                    r = m.assert_directory_verifies(spelled, fail_handler=lambda e: (seen.append(e.path), False)[1])
+                    ok = sorted(seen) == sorted(exp_sub) and bool(r) == (not exp_sub)
+                except BaseException as e:
+                    ok, r = False, type(e).__name__
+                if not ok:
+                    out.append(dict(desc, what='C01/C07 sub-path %r: calls %r result %r expected %r' % (spelled, sorted(seen), r, sorted(exp_sub)),
+                                    key='subpath' if spelled == d else 'subpath-trailing-slash', props=['C01', 'C07']))
     return out, desc, bool(expected)
 
 
@@ -485,6 +489,66 @@ def run_fault_injection(rng):
     return out, n
 
 
+def run_manifest_faults(rng):
+    """C06: a Manifest that exists but cannot be read (a symlink onto itself -> ELOOP, a path whose stat/open fails with EIO)
+    is never treated as absent: neither by the discovery of the top-level Manifest nor by the recursive loader"""
+    out = []
+    n = 0
+    real_stat, real_open, real_bopen = os.stat, os.open, io.open
+    for where, how in itertools.product(('top-from-subdir', 'sub', 'top'), ('eloop', 'eio')):
+        with C.Scratch() as root:
+            C.make_tree(root, {'a': b'a', 'sub/b': b'bb', 'sub/deep/c': b'c'})
+            C.write_manifest(os.path.join(root, 'sub', 'Manifest'), [C.entry_line('DATA', 'b', b'bb', ['SHA1']),
+                                                                     C.entry_line('DATA', 'deep/c', b'c', ['SHA1'])])
+            with open(os.path.join(root, 'sub', 'Manifest'), 'rb') as fh:
+                sm = fh.read()
+            C.write_manifest(os.path.join(root, 'Manifest'), [C.entry_line('DATA', 'a', b'a', ['SHA1']),
+                                                              C.entry_line('MANIFEST', 'sub/Manifest', sm, ['SHA1'])])
+            if C.run_cli(['verify', root]) != 0 or C.run_cli(['verify', os.path.join(root, 'sub')]) != 0:
+                out.append({'what': 'harness error: fault tree does not verify before the fault', 'key': 'harness', 'props': ['C06']})
+                continue
+            victim = os.path.join(root, 'sub', 'Manifest') if where == 'sub' else os.path.join(root, 'Manifest')
+            target = os.path.join(root, 'sub') if where == 'top-from-subdir' else root
+            if how == 'eloop':
+                os.unlink(victim)
+                os.symlink(os.path.basename(victim), victim)
+            else:
+                def bad(p):
+                    try:
+                        return os.path.abspath(os.fspath(p)) == victim
+                    except TypeError:
+                        return False
+
+                def fake_stat(p, *a, **k):
+                    if bad(p):
+                        raise OSError(errno.EIO, os.strerror(errno.EIO), p)
+                    return real_stat(p, *a, **k)
+
+                def fake_open(p, *a, **k):
+                    if bad(p):
+                        raise OSError(errno.EIO, os.strerror(errno.EIO), p)
+                    return real_open(p, *a, **k)
+
+                def fake_bopen(p, *a, **k):
+                    if not isinstance(p, int) and bad(p):
+                        raise OSError(errno.EIO, os.strerror(errno.EIO), p)
+                    return real_bopen(p, *a, **k)
+                os.stat, os.open, io.open = fake_stat, fake_open, fake_bopen
+                import builtins
+                builtins.open = fake_bopen
+            try:
+                st = C.run_cli(['verify', '-j', '1', target])
+            finally:
+                os.stat, os.open, io.open = real_stat, real_open, real_bopen
+                import builtins
+                builtins.open = real_bopen
+            n += 1
+            if st == 0:
+                out.append({'what': 'C06 %s cannot be read (%s), yet `gemato verify %s` exited 0' % (
+                    os.path.relpath(victim, root), how, os.path.relpath(target, root)), 'key': 'manifest-fault:%s:%s' % (where, how), 'props': ['C06']})
+    return out, n
+
+
 def main():
     repo, tier, seed, props = sys.argv[1], sys.argv[2], int(sys.argv[3]), sys.argv[4].split(',')
     C.add_repo(repo)
@@ -523,6 +587,9 @@ def main():
         v, k = run_fault_injection(rng)
         viol.extend(v)
         faults += k
+    v, k = run_manifest_faults(rng)
+    viol.extend(v)
+    faults += k
     C.emit({'evaluations': evals + chain + faults, 'distinct_nontrivial': len(distinct),
             'rule': 'random trees (<=5 dirs, depth<=3, names with spaces/Unicode/backslashes, hidden files, IGNOREd dir '
                     'with look-alike sibling, sub-Manifests plain/gz/bz2/lzma/xz, compatible duplicates, MISC/EBUILD types) '
